@@ -105,6 +105,7 @@ type Result struct {
 	Feat     []string            `json:"feat,omitempty"`
 	CacheFul bool                `json:"cachefull,omitempty"`
 	Extra    map[string][]int    `json:"extra,omitempty"` // crash step index -> pages the real flush wrote that the specification's flush did not
+	RealTnt  []string            `json:"real_taint,omitempty"` // known-finding signatures that hold on the recorded I/O of this run
 	Graph    *Graph              `json:"graph,omitempty"`
 	Stats    map[string]int      `json:"stats,omitempty"`
 }
@@ -582,6 +583,7 @@ func showAllowed(allowed [][]TabOut) string {
 
 func replay(sc Scenario) (res Result) {
 	res.OK = true
+	os.Remove("sidecar.json")
 	w := &World{cache: sc.Cache}
 	defer func() {
 		if w.sess != nil && w.sess.RelationService != nil {
@@ -700,6 +702,19 @@ func replay(sc Scenario) (res Result) {
 				if why != "" {
 					res.Diverged = why
 					return
+				}
+				// the signature of torn-structural-flush evaluated on what the real flush did: it wrote a page beyond the
+				// end of the file as it was before the flush (a never-written page), and the crash comes after a page write
+				if len(st.Written) > 0 {
+					for _, x := range pending.ios {
+						if x.File == "tbl" && x.Kind == "page" && int(x.Off) >= len(pending.snap.tbl) {
+							res.RealTnt = append(res.RealTnt, "torn-structural-flush")
+							// the recovery that follows may kill this process (endless recursion on a garbage page): leave the
+							// signature where the pool can find it
+							os.WriteFile("sidecar.json", []byte(`{"real_taint":["torn-structural-flush"]}`), 0644)
+							break
+						}
+					}
 				}
 				if st.Orig != nil {
 					inOrig := map[int]bool{}
